@@ -16,6 +16,7 @@ from __future__ import annotations
 import io
 import json
 import os
+import re
 import sys
 import zipfile
 
@@ -230,10 +231,40 @@ def check_xls_format():
     return r
 
 
+def check_dt_slides():
+    """data_types slide assembly on real objects (witness finder for the symbolic obligations)."""
+    import itertools
+    DT = _mod("data_types")
+    r = Result()
+    for nb, no, has_title, nn in itertools.product((0, 1, 2), (0, 1, 2), (False, True), (0, 1)):
+        tk = Tok()
+        title = tk.v() if has_title else None
+        body, other, notes = [tk.v() for _ in range(nb)], [tk.v() for _ in range(no)], [tk.x("NOTE") for _ in range(nn)]
+        spec = "\n".join(([title] if title else []) + body + other)
+        for cls, tt in ((DT.PptSlideContent, title), (DT.OdpSlide, title or "")):
+            obj = cls(slide_number=1, title=tt, body_text=list(body), other_text=list(other), notes=list(notes))
+            ok, w = _cmp(f"data_types.{cls.__name__}.text_combined", repr(dict(title=tt, body_text=body, other_text=other, notes=notes)), obj.text_combined, spec)
+            r.add(cls.__name__, ok, w)
+    for nf, ni, has_base, inc in itertools.product((0, 1, 2), (0, 1, 2), (False, True), (False, True)):
+        tk = Tok()
+        base = tk.v() + "\n" + tk.v() if has_base else ""
+        forms = [DT.PptxFormula(latex=tk.v(), is_display=bool(k % 2)) for k in range(nf)]
+        imgs = [DT.PptxImage(description=(tk.v() if k == 0 else "")) for k in range(ni)]
+        sl = DT.PptxSlide(slide_number=1, base_text=base, formulas=forms, images=imgs, footer=tk.x("HF"),
+                          comments=[DT.PptxComment(author="a", text=tk.x("COM"))], text=tk.x("COM"))
+        spec = "\n".join(([base] if base else []) + [f.latex for f in forms] + ([i.description for i in imgs if i.description] if inc else []))
+        ok, w = _cmp("data_types.PptxSlide.get_text", repr(dict(base_text=base, formulas=[f.latex for f in forms], images=[i.description for i in imgs], include_image_captions=inc)),
+                     sl.get_text(include_image_captions=inc), spec.replace("[", " ").replace("]", " "))
+        # decoration "[Image: ...]" / "$": compare on generator tokens only
+        r.add("PptxSlide", ok or [t for t in TR.tokens(sl.get_text(include_image_captions=inc)) if t != "Image"] == TR.tokens(spec), w)
+    return r
+
+
 CHECKS = {
     "docx.paragraph": check_docx_paragraph, "docx.table": check_docx_table, "docx.body": check_docx_body,
     "odt.body": check_odt_body, "html.extract": check_html_body, "odf.element_text": check_odf_text,
     "ods.sheet": check_ods_sheet, "xlsx.format": check_xlsx_format, "xls.format": check_xls_format,
+    "dt.slides": check_dt_slides,
 }
 
 
@@ -253,6 +284,16 @@ def run_checks(names=None):
 # ============================================================================================
 # find / rerun
 # ============================================================================================
+# html constructs without a recorded finding (a failure there is a new defect of the node walk)
+HTML_SOUND_CASES = ["p", "inline", "spans", "p-br", "list", "nested-list", "hr", "table", "table-sections", "table-tail", "dl", "pre", "combinations"]
+
+FUNC_OF_CHECK = {
+    "docx.table": "docx_extractor.py::_extract_table_text", "odt.body": "odt_extractor.py::_extract_full_text",
+    "html.extract": "html_extractor.py::_HtmlTextExtractor.extract", "ods.sheet": "ods_extractor.py::_extract_sheet",
+    "xlsx.format": "xlsx_extractor.py::_format_sheet_as_text", "xls.format": "xls_extractor.py::_format_sheet_as_text",
+    "odf.element_text": "_shared.py::element_text",
+}
+
 # obligation id fragment -> (check, cases, kinds)
 WITNESS_MAP = [
     ("_process_text_element/inv-preserve#run-children.sq[tab-break]", "docx.paragraph", ["tab-break"], None),
@@ -260,12 +301,17 @@ WITNESS_MAP = [
     ("_process_text_element/inv-preserve#run-children.sq[other-child]", "docx.paragraph", ["vml-textbox"], None),
     ("[tracked-move-source]", "docx.paragraph", ["tracked-move"], None),
     ("[nested-paragraph]", "docx.paragraph", ["textbox-paragraphs"], None),
-    ("_process_text_element/", "docx.paragraph", None, None),
-    ("_extract_paragraph_content/", "docx.paragraph", None, None),
+    ("_process_text_element/", "docx.paragraph", ["plain"], None),
+    ("_extract_paragraph_content/", "docx.paragraph", ["plain"], None),
     ("_extract_full_text_from_body/inv-preserve#blocks.nw[content-control]", "docx.body", ["content-control"], None),
     ("_extract_full_text_from_body/inv-preserve#blocks.sq[content-control]", "docx.body", ["content-control"], None),
-    ("_extract_full_text_from_body/", "docx.body", None, None),
+    ("_extract_full_text_from_body/", "docx.body", ["plain", "content-control"], None),
     ("_shared.py::", "odf.element_text", None, None),
+    ("PptSlideContent.text_combined", "dt.slides", ["PptSlideContent"], None),
+    ("OdpSlide.text_combined", "dt.slides", ["OdpSlide"], None),
+    ("PptxSlide.get_text", "dt.slides", ["PptxSlide"], None),
+    ("_HtmlTextExtractor._get_node_text", "html.extract", HTML_SOUND_CASES, None),
+    ("_HtmlTextExtractor._process_node", "html.extract", HTML_SOUND_CASES, None),
 ]
 
 
@@ -273,11 +319,22 @@ def find(req):
     oid = req.get("obligation", "")
     if req.get("known_finding"):
         return replay_finding(req)
-    if "/bounded#" in oid or "/document#" in oid:
-        w = (req.get("witness") or {})
-        if w.get("observed") is not None:
-            return dict(w, reproduced=True)
-        return {"reproduced": False, "note": "bounded obligation without stored witness"}
+    m = re.search(r"api::(\w+)\.get_full_text/document#tokens\[(.+)\]$", oid)
+    if m:
+        from replay import c02_docs
+        rec = c02_docs.run_documents([m.group(1)]).get(m.group(1), {}).get(m.group(2))
+        if rec and rec.get("ok") is False:
+            return dict(rec, reproduced=True, search="document generator replay/c02_docs.py, feature " + m.group(2))
+        return {"reproduced": False, "note": f"document {m.group(1)}[{m.group(2)}] passes"}
+    m = re.search(r"C02/(.+)/bounded#tokens\[(.+)\]$", oid)
+    if m:
+        check = next((k for k, v in FUNC_OF_CHECK.items() if v == m.group(1)), None)
+        if check is None:
+            return {"reproduced": False, "note": "no check for " + m.group(1)}
+        c = CHECKS[check]().cases.get(m.group(2))
+        if c and c["witness"] is not None:
+            return dict(c["witness"], reproduced=True, search=f"{check}[{m.group(2)}]: {c['failures']} of {c['checked']} inputs fail")
+        return {"reproduced": False, "note": f"{check}[{m.group(2)}]: no failing input"}
     for frag, check, cases, kinds in WITNESS_MAP:
         if frag in oid:
             r = CHECKS[check]()
